@@ -6,7 +6,7 @@ CELL = ["a", "b", "", None, "zz", 5]
 LCELL = [None, ["L", "a"], ["L", "a", "b"], ["L", "b", "b", "c"], "alt", ["L"]]
 MAPS = [{"a": "b"}, {"a": "b", "b": "a"}, {"a": "x", "b": "y"}, {"": "e"}, {"zz": "a"}, {"a": "a"}, {}, {"a": "b", "b": "c"}, {"c": "a", "a": "c"},
         {"alt": "q"}, {"5": "6"}]
-FILTERS = ['{"included": ["a", "b"]}', '{"excluded": ["a", 5, null]}', '', '{"included": []}', '{"excluded": ["zz"], "min": 1}']
+FILTERS = ['{"included": ["a", "b"]}', '{"excluded": ["a", 5, null]}', '', '{"included": []}', '{"excluded": ["zz", "a"], "included": ["b"]}']
 
 
 def fixture(cells, lcells, filt):
